@@ -295,18 +295,20 @@ def unique_tags(rng: random.Random, n: int, start: int = 0) -> np.ndarray:
     return np.array(vals, dtype=float)
 
 
-def scaled_dataset(rng: random.Random, n: int, d: int) -> tuple[np.ndarray, np.ndarray]:
-    """columns offset + scale * u with scales 1e-6…1e6, |offset| <= 3e5 * scale, no constant column"""
+def scaled_dataset(rng: random.Random, n: int, d: int, extreme: bool = False) -> tuple[np.ndarray, np.ndarray]:
+    """columns offset + scale * u with scales 1e-6…1e6 (sometimes 1e-12, 1e-9, 1e9; responses down to 1e-20),
+    |offset| <= 3e5 * scale, no constant column"""
     nr = np.random.RandomState(rng.getrandbits(31))
     while True:
         T = np.empty((n, d))
         for j in range(d):
-            s = 10.0 ** rng.randrange(-6, 7)
+            s = 10.0 ** (rng.randrange(-6, 7) if not extreme or rng.random() < 0.7 else rng.choice([-12, -9, 9]))
             # offsets up to 3e5 spreads: a two-pass standard deviation still resolves these to ~1e-11,
             # a one-pass (mean of squares minus squared mean) formula does not
             off = s * rng.choice([0.0, 1.0, -3.0, 10.0, -100.0, 1.0e5, -3.0e5])
             T[:, j] = off + s * nr.uniform(-4, 4, size=n)
-        s = 10.0 ** rng.randrange(-4, 5)
+        # responses in whatever unit the user has: energies in joules (1e-20), rates (1e-12), counts (1e9)
+        s = 10.0 ** (rng.randrange(-4, 5) if not extreme or rng.random() < 0.4 else rng.choice([-20, -12, -9, 9]))
         R = s * rng.choice([0.0, 2.0, -50.0]) + s * nr.uniform(-4, 4, size=n)
         if n < 2 or (all(np.ptp(T[:, j]) > 0 for j in range(d)) and np.ptp(R) > 0):
             return T, R
@@ -770,10 +772,15 @@ def predicate_roundtrip(T, R) -> tuple[str, str] | None:
                 return (f"{fam}:shape", f"{fam} changed the shapes to {Ts.shape}, {Rs.shape}")
             if fam == "standardise":
                 for j in range(T.shape[1]):
-                    if abs(np.mean(Ts[:, j])) > 1e-9 or abs(np.std(Ts[:, j]) - 1) > 1e-9:
+                    # rounding: the column is offset by up to cond = max|x| / spread spreads, and each standardised value
+                    # carries a relative error of a few eps * cond
+                    cond = float(np.max(np.abs(T[:, j]))) / max(float(np.std(T[:, j])), 1e-300)
+                    tolj = 1e-9 + 200 * 2.3e-16 * cond
+                    if abs(np.mean(Ts[:, j])) > tolj or abs(np.std(Ts[:, j]) - 1) > tolj:
                         return ("standardise_training:moments", f"feature {j} has mean {np.mean(Ts[:, j])!r} and spread "
                                 f"{np.std(Ts[:, j])!r} after standardising")
-                if abs(np.mean(Rs)) > 1e-9 or abs(np.std(Rs) - 1) > 1e-9:
+                condr = float(np.max(np.abs(R))) / max(float(np.std(R)), 1e-300)
+                if abs(np.mean(Rs)) > 1e-9 + 200 * 2.3e-16 * condr or abs(np.std(Rs) - 1) > 1e-9 + 200 * 2.3e-16 * condr:
                     return ("standardise_response:moments", f"response has mean {np.mean(Rs)!r} and spread {np.std(Rs)!r} "
                             f"after standardising")
             else:
@@ -917,7 +924,7 @@ def predicates(ctx: Ctx) -> None:
     for _ in range(ctx.scale(30, 200) * deep):
         d = rng.randrange(1, 6)
         n = rng.choice([2, 3, 5, 10, 40])
-        T, R = scaled_dataset(rng, n, d)
+        T, R = scaled_dataset(rng, n, d, extreme=rng.random() < 0.4)
         r = predicate_roundtrip(T, R)
         ctx.stats.case({"stream": "predicate-roundtrip", "n": n, "d": d}, True)
         if r:
@@ -925,7 +932,7 @@ def predicates(ctx: Ctx) -> None:
     for _ in range(ctx.scale(12, 80) * deep):
         d = rng.randrange(1, 6)
         n = rng.choice([2, 3, 5, 10, 40])
-        T, R = scaled_dataset(rng, n, d)
+        T, R = scaled_dataset(rng, n, d, extreme=rng.random() < 0.4)
         ops = cycle_ops(rng, rng.randrange(1, ctx.scale(6, 12) + 1), d,
                         [max(float(np.max(np.abs(T[:, j]))), 1e-300) for j in range(d)], max(float(np.max(np.abs(R))), 1e-300),
                         allow_empty=True)          # a cycle that proposes nothing new hands over an empty batch
